@@ -35,7 +35,8 @@ def Dim.angle1 : Dim := ⟨0, 0, 1, 0⟩
 def Dim.vel (i : Nat) : Dim := ⟨1, -1 - (i : Int), 0, 0⟩
 
 inductive Kind where
-  | normal        -- `pm.Normal`
+  | normal        -- `pm.Normal` with constant parameters
+  | normalDep     -- `pm.Normal` whose `mu` / `sigma` depend on another random variable of the model (not independent)
   | fcm           -- `FixedCompanionMass`
   | otherRV       -- any other random variable (Uniform, HalfNormal, StudentT, TruncatedNormal, ...)
   | unnamedOp     -- owner op without `_print_name`: expression, `pm.Deterministic`, thejoker's own `UniformLog`
@@ -128,7 +129,9 @@ def checkLinear (env : List Param) : List Name → Except Err Unit
     | none => .error .unspecified
     | some par =>
       match par.kind with
-      | .normal | .fcm => checkLinear env rest
+      | .normal => checkLinear env rest
+      | .fcm => if n = .K then checkLinear env rest else .error .value     -- the kernel knows its P, e dependence for K only
+      | .normalDep => .error .value
       | .otherRV => .error .value
       | .notTensor => .error .type
       | .unnamedOp | .noOwner => .error .unspecified
